@@ -86,8 +86,16 @@ def c20_hook(state):
                 if r is None:
                     # a transition naming no job on a machine raises inside the validator's helpers: not a rejection
                     # path of the state machine but an exception; only phase-invalid transitions are the property's
-                    # subject, so this is counted but not judged
+                    # subject, so the raise itself is counted, not judged - but the MODEL has to raise the same way:
+                    # an action the model rejects cleanly while the implementation raises is a violation
                     out["counts"]["mixed_actions_raised"] = out["counts"].get("mixed_actions_raised", 0) + 1
+                    import jsl as _j
+                    drv = state.setdefault("drv", _j.Driver())
+                    m = drv.step(codec, pre, codec.transitions(trs), "jte")
+                    if m != o:
+                        out["violations"].append({"kind": "atomic:raised_not_rejected", "detail": "the implementation raised (%s) "
+                                                  "on a mixed action, the model answers %s" % (o[:60], m[:60]),
+                                                  "replay": dict(rp, model=m[:2000])})
                 else:
                     if r.success:
                         out["violations"].append({"kind": "atomic:accepted", "detail": "action with a phase-invalid "
